@@ -45,6 +45,8 @@ func main() {
 	// result; a fault while resolving one event's sub-selection affects that response only)
 	vlib.ExecConformance(c, "C04s", bins, vs, rand.New(rand.NewSource(vlib.Seed()+402)), n/3,
 		vlib.ExecMode{Faults: true, Panics: true, DirFaults: true, Subs: true, PlansPer: 4,
-			Module: "GqlSubTrace", Config: "GqlSubTrace.cfg", Lines: vlib.SubTraceLines})
+			Module: "GqlSubTrace", Config: "GqlSubTrace.cfg", Lines: vlib.SubTraceLines,
+			// subscriptions over server-sent events: one `next` event per response
+			Transports: []string{"tp:sse"}, TransportEvery: 3})
 	c.Finish()
 }
